@@ -115,8 +115,8 @@ func runC17(c *Ctx) {
 		}
 	}
 
-	if nKeys < 6 {
-		c.Unknown("R17.3", "anchor-unresolved: lookup key literals", 0, fmt.Sprintf("found %d key literals, expected >= 6", nKeys))
+	if nKeys < 3 {
+		c.Unknown("R17.3", "anchor-unresolved: lookup key literals", 0, fmt.Sprintf("found %d key literals, expected >= 3", nKeys))
 	}
 
 	dependentsFresh(c, "R17.3")
